@@ -6,6 +6,7 @@ import MpireModel.Model.Progress
 import MpireModel.Model.BarHandshake
 import MpireModel.Model.ResultIter
 import MpireModel.Model.TimeoutScan
+import MpireModel.Model.Permanent
 import MpireModel.Model.Exception
 import MpireModel.Model.History
 import MpireModel.Model.ApplyHandover
@@ -235,6 +236,31 @@ def handleTScan (fs : List (String × String)) : Option String := do
   let failed := (r.failed.map fun (wk, w) => s!"{showWorking wk}:{w}").mergeSort (fun a b => a ≤ b)
   let left := (r.cache.map (·.id)).mergeSort (fun a b => a ≤ b)
   some s!"ok killed={showNats r.killed} failed={",".intercalate failed} exc={match r.exc with | some w => showWorking w | none => "-"} returned={if r.returned then 1 else 0} cache={showNats left}"
+
+/-! permanent cache entries -/
+open Mpire.Permanent in
+/-- `perm kind=<G|X> ops=<O5,E2,R,…>`: the re-settable getter (G) or the exit-result collector (X) after the history -/
+def handlePerm (fs : List (String × String)) : Option String := do
+  let kind ← get fs "kind"
+  let os := (← get fs "ops")
+  let toks := if os == "-" || os == "" then [] else os.splitOn ","
+  if kind == "G" then
+    let ops ← toks.mapM fun t =>
+      if t == "R" then some GOp.reset
+      else if t.startsWith "O" then (t.drop 1).toString.toNat?.map fun v => GOp.set (.ok v)
+      else if t.startsWith "E" then (t.drop 1).toString.toNat?.map fun v => GOp.set (.err v)
+      else none
+    let g := ({} : Getter).run ops
+    some s!"ok ready={if g.ready then 1 else 0} out={match g.getException with | some (.ok v) => s!"ok:{v}" | some (.err e) => s!"err:{e}" | none => "-"}"
+  else if kind == "X" then
+    let ops ← toks.mapM fun t =>
+      if t == "R" then some EOp.reset
+      else if t.startsWith "O" then (t.drop 1).toString.toNat?.map EOp.setOk
+      else if t.startsWith "E" then (t.drop 1).toString.toNat?.map EOp.setErr
+      else none
+    let s := ({} : ExitIt).run ops
+    some s!"ok results={showNats s.getResults} rec={s.nReceived} exc={match s.exc with | some e => toString e | none => "-"} got={if s.gotExc then 1 else 0}"
+  else none
 
 /-! exception -/
 open Mpire.Exc in
